@@ -848,6 +848,18 @@ impl fmt::Display for Type<'_> {
 }
 
 impl<'a> Type<'a> {
+  /// Whether the formatted type ends in a comment whose line break has been
+  /// trimmed. A closing delimiter must not follow on the same line.
+  #[cfg(feature = "ast-comments")]
+  fn ends_in_open_comment(&self) -> bool {
+    self.type_choices.len() == 1
+      && self.type_choices[0]
+        .comments_after_type
+        .as_ref()
+        .map(|c| c.any_non_newline())
+        .unwrap_or(false)
+  }
+
   /// Used to delineate between grpent with `Type` and group entry with group
   /// name identifier `id`
   #[allow(clippy::type_complexity)]
@@ -1362,6 +1374,11 @@ impl fmt::Display for Type2<'_> {
         }
 
         #[cfg(feature = "ast-comments")]
+        if pt.ends_in_open_comment() {
+          pt_str.push('\n');
+        }
+
+        #[cfg(feature = "ast-comments")]
         if let Some(comments) = comments_after_type {
           pt_str.push_str(&comments.to_string());
         }
@@ -1603,6 +1620,11 @@ impl fmt::Display for Type2<'_> {
         }
 
         t2_str.push_str(&t.to_string());
+
+        #[cfg(feature = "ast-comments")]
+        if t.ends_in_open_comment() {
+          t2_str.push('\n');
+        }
 
         #[cfg(feature = "ast-comments")]
         if let Some(comments) = comments_after_type {
